@@ -225,7 +225,10 @@ def check_limiter(ctx):
         elif c.is_("core::iter::traits::iterator::Iterator::max", "core::iter::traits::iterator::Iterator::max_by_key",
                    "core::iter::traits::iterator::Iterator::max_by"):
             sel = "max"
-    if order is None or sel is None:
+    if order == "not-by-period" and sel in ("first", "last"):
+        ctx.fail(R2c, "%s:%s" % (nb.file, nb.line), "RateLimit::new does not order the limits by period, yet prune_log takes `%s()` as the longest period: "
+                 "entries still needed by a longer window are pruned" % sel, ["RateLimit::new", "sort-key"])
+    elif order is None or sel is None:
         ctx.notes.append("R2c undecided: unrecognised sort/selection idiom (order=%s, selection=%s)" % (order, sel))
     else:
         longest = sel == "max" or (order == "desc" and sel == "first") or (order == "asc" and sel == "last")
@@ -274,23 +277,32 @@ def sort_order_of_limits(prog, nb):
     for c in nb.calls:
         if c.bb not in nb.live_blocks():
             continue
-        if c.is_("alloc::slice::<impl [T]>::sort_by", "alloc::slice::<impl [T]>::sort_unstable_by") and c.gbodies:
+        if c.is_("alloc::slice::<impl [T]>::sort_by", "alloc::slice::<impl [T]>::sort_unstable_by", "core::slice::<impl [T]>::sort_unstable_by") and c.gbodies:
             cb = prog.body(c.gbodies[0])
             for cc in cb.calls:
                 if cc.fn in ("core::cmp::PartialOrd::partial_cmp", "core::cmp::Ord::cmp"):
                     a0 = arg_origins(cc, 0)
                     a1 = arg_origins(cc, 1)
-                    if ("tuple", 1) in a0.fields and ("tuple", 1) in a1.fields:
+                    if ("tuple", 1) in a0.fields and ("tuple", 1) in a1.fields and ("tuple", 0) not in a0.fields | a1.fields:
                         if a0.has_leaf("param:2") and a1.has_leaf("param:3"):
                             order = "asc"
                         elif a0.has_leaf("param:3") and a1.has_leaf("param:2"):
                             order = "desc"
+                    elif (a0.has_leaf("param:2") or a0.has_leaf("param:3")) and (a1.has_leaf("param:2") or a1.has_leaf("param:3")):
+                        # the comparator orders the (number, period) tuples by something else than the period alone
+                        order = "not-by-period"
             sort_bb = c.bb
-        elif c.is_("alloc::slice::<impl [T]>::sort_by_key", "alloc::slice::<impl [T]>::sort_unstable_by_key") and c.gbodies:
-            order = "asc"
+        elif c.is_("alloc::slice::<impl [T]>::sort_by_key", "alloc::slice::<impl [T]>::sort_unstable_by_key", "core::slice::<impl [T]>::sort_unstable_by_key", "alloc::slice::<impl [T]>::sort_by_cached_key") and c.gbodies:
+            kb = prog.body(c.gbodies[0])
+            ks = origins(kb, {"l": 0, "p": []}) if kb else None
+            order = "asc" if ks is not None and ("tuple", 1) in ks.fields and ("tuple", 0) not in ks.fields else "not-by-period"
             sort_bb = c.bb
-    if order is None:
-        return None
+        elif c.is_("alloc::slice::<impl [T]>::sort", "core::slice::<impl [T]>::sort_unstable") and \
+                ("acmed::endpoint::RateLimit", "limits") in arg_origins(c, 0).fields | {("acmed::endpoint::RateLimit", "limits")}:
+            order = "not-by-period"
+            sort_bb = c.bb
+    if order is None or order == "not-by-period":
+        return order
     for c in nb.calls:
         if c.is_("core::slice::<impl [T]>::reverse") and c.bb in nb.live_blocks() and sort_bb is not None \
                 and nb.dominates(sort_bb, c.bb):
